@@ -157,6 +157,20 @@ func runC19(c C19Case, cs *kit.CaseStats) (err error) {
 			if err := compare(where); err != nil {
 				return err
 			}
+			// everything else a node is asked all the time keeps answering (a
+			// panic anywhere is a violation; values that depend on bodies may
+			// differ from the twin and are not compared)
+			_ = node.CM.RecommendedFee()
+			_ = node.CM.PoolTransactions()
+			_ = node.CM.V2PoolTransactions()
+			_ = node.CM.MinReorgIndex()
+			_, _, _ = node.CM.UpdatesSince(node.CM.Tip(), 10)
+			_, _, _ = node.CM.BlocksForHistory([]types.BlockID{node.CM.Tip().ID}, 5)
+			_, _, _ = node.CM.BlocksForHistory(nil, 5)
+			_ = node.CM.UnconfirmedParents(types.Transaction{})
+			if node.CM.TipState().Index != node.CM.Tip() {
+				return fmt.Errorf("%s: TipState and Tip disagree", where)
+			}
 			// following the chain from below the pruned height needs pruned
 			// bodies: error, never a panic
 			if h > 0 && tip.Height > 0 {
